@@ -43,6 +43,7 @@ func checkC11(c *Ctx) {
 		c11Blocking(c, a)
 		c11Close(c, a)
 		c12Retry(c, a)
+		sentinelFresh(c, a)
 	}
 }
 
@@ -635,6 +636,7 @@ func checkC12(c *Ctx) {
 		c12Transmit(c, a)
 		c12Map(c, a)
 		loggerPurity(c, short, "C12-K3")
+		ctorDefaultsFirst(c, a)
 	}
 }
 
@@ -979,7 +981,54 @@ func c12Transmit(c *Ctx, a *clientAnchors) {
 
 // c12DeadlineSource: inside the try, the internal deadline error may only be produced by the
 // deadline case of the wait select (anything else makes the driver double and retransmit).
+// sentinelFresh: the internal per-try deadline error is a value of its own (errors.New in the package
+// initialiser), not an alias of an error a caller or the context can produce (ErrNoResponse,
+// context.DeadlineExceeded): the retry driver tells "this try timed out" from everything else by identity.
+func sentinelFresh(c *Ctx, a *clientAnchors) {
+	r := c.R
+	var g *ssa.Global
+	for _, m := range a.pkg.Members {
+		if gl, ok := m.(*ssa.Global); ok && gl.Name() == "errDeadlineExceeded" {
+			g = gl
+		}
+	}
+	key := a.short + ": the internal deadline error is a distinct value (errors.New in the package initialiser)"
+	if g == nil {
+		r.Undecided("C12-K1", key, "-", "global errDeadlineExceeded not found")
+		return
+	}
+	initF := a.pkg.Func("init")
+	fresh, n := false, 0
+	var pos ssa.Instruction
+	for _, f := range append([]*ssa.Function{initF}, a.pkgFuncs(c.P)...) {
+		if f == nil {
+			continue
+		}
+		allInstrs(f, func(in ssa.Instruction) {
+			st, ok := in.(*ssa.Store)
+			if !ok || st.Addr != ssa.Value(g) {
+				return
+			}
+			n++
+			pos = in
+			v := st.Val
+			if mi, ok := v.(*ssa.MakeInterface); ok {
+				v = mi.X
+			}
+			if cl, ok := v.(*ssa.Call); ok && (isFuncCall(cl.Common(), "errors", "New") || isFuncCall(cl.Common(), "fmt", "Errorf")) {
+				fresh = true
+			}
+		})
+	}
+	p := "-"
+	if pos != nil {
+		p = c.P.ipos(pos)
+	}
+	r.Check(n == 1 && fresh, "C12-K1", key, p, "single store of an errors.New result", "errDeadlineExceeded is not a fresh error value (it aliases another error or is assigned more than once): a caller's context deadline, ErrNoResponse after Close, or a connection error is then taken for a try that timed out and retried")
+}
+
 func c12DeadlineSource(c *Ctx, a *clientAnchors) {
+	sentinelFresh(c, a)
 	r := c.R
 	key := func(s string) string { return a.short + ".SendAndRead: " + s }
 	w, why := resolveWait(c, a)
@@ -1098,4 +1147,92 @@ func loggerPurity(c *Ctx, pkgShort, rule string) {
 	}
 	r.Count(rule+"-loggers-"+pkgShort, n)
 	r.Expect(rule+"-loggers-"+pkgShort, 2)
+}
+
+// ctorDefaultsFirst: C12-K5 — in the constructor, a Client field that the retry driver reads and some ClientOpt can set is not written after
+// an option has been applied: defaults come first, options prevail (WithRetry(0) / WithTimeout(0) stay what the
+// caller asked for).
+func ctorDefaultsFirst(c *Ctx, a *clientAnchors) {
+	r := c.R
+	optT, _ := a.pkg.Pkg.Scope().Lookup("ClientOpt").(*types.TypeName)
+	if optT == nil || a.ctor == nil {
+		r.Undecided("C12-K5", a.short+": ClientOpt type / constructor", "-", "not found")
+		return
+	}
+	sig, _ := optT.Type().Underlying().(*types.Signature)
+	fieldOf := func(st *ssa.Store) string {
+		fa, ok := st.Addr.(*ssa.FieldAddr)
+		if !ok {
+			return ""
+		}
+		pt, ok := fa.X.Type().Underlying().(*types.Pointer)
+		if !ok {
+			return ""
+		}
+		n, ok := pt.Elem().(*types.Named)
+		if !ok || n.Obj() != a.client.Obj() {
+			return ""
+		}
+		return n.Underlying().(*types.Struct).Field(fa.Field).Name()
+	}
+	settable := map[string]bool{}
+	for _, f := range a.pkgFuncs(c.P) {
+		if f.Parent() == nil || sig == nil || !types.Identical(f.Signature, sig) {
+			continue
+		}
+		allInstrs(f, func(in ssa.Instruction) {
+			if st, ok := in.(*ssa.Store); ok {
+				if n := fieldOf(st); n != "" {
+					settable[n] = true
+				}
+			}
+		})
+	}
+	// only the fields the retry driver reads (the schedule: timeout, number of tries)
+	sched := map[string]bool{}
+	if a.retry != nil {
+		allInstrs(a.retry, func(in ssa.Instruction) {
+			if fa, ok := in.(*ssa.FieldAddr); ok {
+				if pt, ok := fa.X.Type().Underlying().(*types.Pointer); ok {
+					if n, ok := pt.Elem().(*types.Named); ok && n.Obj() == a.client.Obj() {
+						sched[n.Underlying().(*types.Struct).Field(fa.Field).Name()] = true
+					}
+				}
+			}
+		})
+	}
+	for k := range settable {
+		if !sched[k] {
+			delete(settable, k)
+		}
+	}
+	var optCalls []ssa.Instruction
+	allInstrs(a.ctor, func(in ssa.Instruction) {
+		if cl, ok := in.(*ssa.Call); ok && cl.Call.StaticCallee() == nil && !cl.Call.IsInvoke() && types.Identical(cl.Call.Value.Type(), optT.Type()) {
+			optCalls = append(optCalls, in)
+		}
+	})
+	if len(optCalls) == 0 || len(settable) == 0 {
+		r.Undecided("C12-K5", a.short+": options applied in the constructor", c.P.pos(a.ctor.Pos()), fmt.Sprintf("%d option calls, %d option-settable fields", len(optCalls), len(settable)))
+		return
+	}
+	bad := ""
+	allInstrs(a.ctor, func(in ssa.Instruction) {
+		st, ok := in.(*ssa.Store)
+		if !ok {
+			return
+		}
+		n := fieldOf(st)
+		if n == "" || !settable[n] {
+			return
+		}
+		for _, oc := range optCalls {
+			after := (oc.Block() == st.Block() && instrIndex(oc) < instrIndex(st)) || (oc.Block() != st.Block() && reachFromSuccs(oc.Block(), nil, nil)[st.Block()])
+			if after {
+				bad = "Client." + n + " is written at " + c.P.ipos(st) + " after an option may already have set it"
+			}
+		}
+	})
+	r.Check(bad == "", "C12-K5", a.short+": defaults are set before the options run; no option-settable field is written afterwards", c.P.pos(a.ctor.Pos()), fmt.Sprintf("fields settable by options: %d; option call sites: %d", len(settable), len(optCalls)),
+		bad+": a default applied afterwards cannot tell \"not configured\" from an explicit zero (WithRetry(0), WithTimeout(0)), so the configured number of tries / timeout is not what the schedule uses")
 }
